@@ -67,7 +67,7 @@ extern int64_t mpt_stream_seek(MPT_STRUCT(stream) *stream, int64_t pos, int mode
 		if (mode == SEEK_CUR && (flags & MPT_STREAMFLAG(WriteBuf))) {
 			pos += qu->len;
 		}
-		file = _mpt_stream_fread(&stream->_info);
+		file = _mpt_stream_fwrite(&stream->_info);
 		stream->_wd._state = def_enc;
 		break;
 	    default:
